@@ -113,10 +113,23 @@ def h_ct(defs, main, ns, mode, overlap=False):
     return body
 
 
+def h_poolct(idx):
+    """a case of the shared dense-time online pool (vf/poolct.py)"""
+    def body(env):
+        from .. import poolct
+        outs, res = ct.run_pool_case(env, poolct.CASES[idx], check=('get_value',))
+        env.observe('updates', len(outs))
+        return res
+    return body
+
+
 def obligations(tier, rng):
     quick = tier == 'quick'
     N = 5 if quick else 7
     out = []
+    from .. import poolct as _pc
+    for _i, _c in enumerate(_pc.CASES):
+        out.append(ob('C12', 'poolct', 'pool-ct-get_value/%d/%s/%s' % (_i, text(_c[0]), ';'.join(','.join(map(str, q)) or '-' for q in _c[2])), idx=_i, max_paths=60000, wall=900))
     for d in DEFS_PAST + DEFS_FUT:
         fut = refsem.has_future(d)
         for m in MAINS:
